@@ -203,6 +203,10 @@ def run(ctx):
     readers(ctx)
     phase("readers")
 
+    # 5. forced schedules of the permanent store's state cache against a merge (binding G)
+    forced(ctx, ID, "PermCache_enum_quick.cfg" if quick else "PermCache_enum.cfg")
+    phase("forced")
+
     ctx.exhaustive = True
     ctx.rule = ("behaviours of Database.tla (WriteBlock/MergeOne/MergeAll/RemoveBlocks) replayed on a real Center; "
                 "exhaustive part: shortest path to every distinct state of %s, reads compared at its end; random part: "
@@ -214,6 +218,69 @@ def run(ctx):
         "a block that changes the suffrage state carries the suffrage proof of the next suffrage height",
         "LastSuffrageProofBytes' extra height is not constrained by the statement (reported in reported_only)",
     ]
+
+
+STALE_KEY = "State-older-than-committed;perm-state-cache"
+
+
+def forced(ctx, prop, cfg, extra_args=()):
+    """PermCache.tla: every distinct state of the interleaving model is a schedule; those a single merge call
+    can realise are forced on the real code through the gates in (Leveldb|Redis)Permanent.State. A verdict only
+    from what the real database answers: a read that was called after a merge had ended (or after the whole
+    schedule) and returns an older state than that merge committed."""
+    r, states = ctx.tlc_dump_steps("PermCache", cfg, timeout=900)
+    cases = []
+    for s in states:
+        for wc in (64, 0):
+            cases.append({"id": len(cases), "sched": s["sched"], "stored": s["stored"], "cache": s["cache"],
+                          "rets": s["rets"], "los": s["los"], "writecache": wc,
+                          "model_ok": bool(s["fresh"] and s["nostale"])})
+    cp = os.path.join(ctx.work, "forced-cases.ndjson")
+    rp = os.path.join(ctx.work, "forced-res.ndjson")
+    core.write_ndjson(cp, cases)
+    ctx.vh([prop, "forced", "--in", cp, "--out", rp] + list(extra_args), timeout=1800)
+    rows = {x["id"]: x for x in core.read_ndjson(rp)}
+    if len(rows) != len(cases):
+        raise core.MachineryError("forced: harness answered %d of %d schedules" % (len(rows), len(cases)))
+    st = {"schedules": len(cases), "forced": 0, "not_forced": 0, "stale_on_code": 0, "model_stale": 0,
+          "model_stale_not_met": 0, "prediction_differs": 0}
+    for c in cases:
+        x = rows[c["id"]]
+        if x.get("panic"):
+            ctx.violation("forced(panic)", "panic while forcing %s: %s" % (c["sched"], x["panic"][:300]), {"case": c})
+            continue
+        if not x["forced"]:
+            st["not_forced"] += 1
+            continue
+        st["forced"] += 1
+        ctx.traces += 1
+        ctx.case(["forced", c["sched"], c["writecache"]], nontrivial=any(a[0] == "m" for a in c["sched"]),
+                 sample={"source": "forced", "sched": c["sched"], "fresh": x["fresh"], "stored": x["stored"]})
+        if not c["model_ok"]:
+            st["model_stale"] += 1
+        predicted = c["cache"] if c["cache"] != -1 else c["stored"]
+        if x["fresh"] != predicted:
+            st["prediction_differs"] += 1
+        stale = x["fresh"] >= -1 and x["fresh"] < x["stored"]
+        why = "a read after the schedule returns height %d, the last merged block wrote height %d" % (
+            2 * x["fresh"], 2 * x["stored"])
+        for rd, v in (x.get("rets") or {}).items():
+            lo = c["los"].get(rd, -1)
+            if c["rets"].get(rd, -1) != -1 and lo != -1 and v < lo:
+                stale = True
+                why = "reader %s was called after the merge of height %d had ended and got height %d" % (rd, 2 * lo, 2 * v)
+        if stale:
+            st["stale_on_code"] += 1
+            ctx.violation(STALE_KEY, "forced schedule %s (block write state cache %d): %s" % (c["sched"], c["writecache"], why),
+                          {"source": "forced", "case": c, "result": x})
+        elif not c["model_ok"]:
+            st["model_stale_not_met"] += 1
+    ctx.extra["forced_schedules"] = st
+    if st["model_stale_not_met"]:
+        ctx.extra.setdefault("model_only_counterexamples", []).append(
+            "PermCache: %d schedules end with a stale cache in the model but not on this tree" % st["model_stale_not_met"])
+    if st["forced"] == 0:
+        raise core.MachineryError("no schedule of PermCache.tla could be forced")
 
 
 def readers(ctx):
@@ -242,14 +309,14 @@ def readers(ctx):
         ev = events[line - 1]
         if cls in ("stale-read(State)", "committed-not-visible(State)"):
             # one class of history: a State read answered with an older state than a commit that had returned
-            key = "readers(State-older-than-committed;%s)" % ("perm-state-cache" if pc_at[line - 1] > 0 else "no-cache")
+            key = STALE_KEY if pc_at[line - 1] > 0 else "readers(State-older-than-committed;no-cache)"
             older += 1
         else:
             key = "readers(%s)" % cls
         if key in seen:
             continue
         seen.add(key)
-        ctx.violation(key, "concurrent reader %s: %s (permanent store state cache size %d); got/want %s" % (
+        ctx.violation(key, "concurrent readers: reader %s: %s (permanent store state cache size %d); got/want %s" % (
             ev.get("r"), ev, pc_at[line - 1], rest),
             {"class": cls, "event": ev, "permcache": pc_at[line - 1], "before": events[max(0, line - 12):line]})
     ctx.extra["reader_state_reads_older_than_committed"] = older
